@@ -94,6 +94,10 @@ def make(e, x=1, tmp=None):
         return make(e['kids'][0], 10 * x + 1, tmp) >> make(e['kids'][1], 10 * x + 2, tmp)
     if op in ('mapper', 'apply', 'train', 'label'):
         return getattr(wrap.Operator, op)(cls)(str(x))
+    if op in ('lmapper', 'lapply', 'ltrain'):
+        label_cls = symbolic.Stateful if e['k'] == 1 else symbolic.Stateless
+        combined = getattr(wrap.Operator.label(label_cls, label=str(10 * x + 1)), op[1:])(cls, label=str(x))
+        return combined()
     if op == 'dump':
         return payload.Dump(apply=SymDump.builder(str(x), path=f'{tmp}/dump-{x}-$mode-$seq'))
     if op == 'mapreduce':
